@@ -193,12 +193,22 @@ def run_scripted(c, outdir):
 # short real runs, traced (trace refinement): every proposal draw and every consume_sample
 # ---------------------------------------------------------------------------------------------
 class Gauss(Model):
-    def __init__(self, dims=2):
+    def __init__(self, dims=2, variant=None):
         self.names = [f"x{i}" for i in range(dims)]
         self.bounds = {n: [-5.0, 5.0] for n in self.names}
+        self.variant = variant
+        if variant == "asym":
+            # different, disjoint ranges per parameter: values swapped between columns leave the bounds
+            self.bounds = {n: [10.0 * i, 10.0 * i + 1.0 + i] for i, n in enumerate(self.names)}
+        if variant == "flat-corner":
+            self.bounds = {n: [-1.0, 1.0] for n in self.names}
 
     def log_prior(self, x):
-        lp = np.log(self.in_bounds(x), dtype="float")
+        if self.variant == "flat-corner":
+            # the constant density of the uniform prior, NOT -inf outside the bounds (verify_model accepts it)
+            lp = np.zeros(x.size)
+        else:
+            lp = np.log(self.in_bounds(x), dtype="float")
         for n in self.names:
             lp -= np.log(self.bounds[n][1] - self.bounds[n][0])
         return lp
@@ -206,7 +216,13 @@ class Gauss(Model):
     def log_likelihood(self, x):
         ll = np.zeros(x.size)
         for n in self.names:
-            ll += -0.5 * x[n] ** 2 - 0.5 * np.log(2 * np.pi)
+            if self.variant == "asym":
+                c = 0.5 * (self.bounds[n][0] + self.bounds[n][1])
+                ll += -0.5 * ((x[n] - c) / 0.2) ** 2
+            elif self.variant == "flat-corner":
+                ll += -0.5 * ((x[n] - 1.0) / 0.3) ** 2          # posterior mass at the corner (1, 1)
+            else:
+                ll += -0.5 * x[n] ** 2 - 0.5 * np.log(2 * np.pi)
         return ll
 
     def new_point(self, N=1):
@@ -223,7 +239,7 @@ def run_real(c, outdir):
     import torch
 
     torch.set_num_threads(1)
-    model = Gauss(c.get("dims", 2))
+    model = Gauss(c.get("dims", 2), c.get("variant"))
     ids = {}
 
     def pid(p):
@@ -243,6 +259,8 @@ def run_real(c, outdir):
         kwargs.update(maximum_uninformed=c.get("maximum_uninformed", c["nlive"]),
                       flow_config=dict(n_blocks=2, n_neurons=4, max_epochs=c.get("max_epochs", 20), patience=5),
                       poolsize=c.get("poolsize", c["nlive"]), analytic_priors=True)
+        if c.get("reparameterisations"):
+            kwargs["reparameterisations"] = c["reparameterisations"]
     ns = NestedSampler(model, **kwargs)
     stream = []  # one entry per proposal.draw
     events = []
@@ -285,6 +303,10 @@ def run_real(c, outdir):
               "new": pid(ns.live_points[i]), "new_logL": float(ns.live_points[i]["logL"]),
               "new_finP": bool(np.isfinite(ns.live_points[i]["logP"])),
               "new_inb": bool(model.in_bounds(ns.live_points[i])),
+              # the stored log-likelihood of the replacement is the model's value at the stored parameters
+              "new_logL_ok": bool(np.isclose(float(model.log_likelihood(ns.live_points[i:i + 1])[0]),
+                                             float(ns.live_points[i]["logL"]), rtol=1e-9, atol=1e-9)),
+              "live_inb": bool(np.all(model.in_bounds(ns.live_points))),
               "worst_logL": float(ns.nested_samples[-1]["logL"])}
         full = (ns.iteration % c.get("full_every", 25) == 0) or ns.iteration <= 3
         if full:
